@@ -79,9 +79,9 @@ Definition sub_kwargs (key : string) (split : list (string * kwargs)) : kwargs :
 Definition unflatten_and_split (kw : kwargs) (expected : list string) : list (string * kwargs) * kwargs :=
   fold_left (fun (acc : list (string * kwargs) * kwargs) (kv : path * val) =>
       let '(split, glob) := acc in
-      let '(left, right) := partition_key (fst kv) in
-      if mem left expected
-      then (dict_set left (kw_set right (snd kv) (sub_kwargs left split)) split, glob)
+      let '(hd, tl) := partition_key (fst kv) in
+      if mem hd expected
+      then (dict_set hd (kw_set tl (snd kv) (sub_kwargs hd split)) split, glob)
       else (split, kw_set (fst kv) (snd kv) glob))
     kw ([], []).
 
@@ -172,7 +172,7 @@ Definition edge_get_params (tri : bool) (e : edge) : pdict :=
   else (["spread"], Leaf (e_spread e)) ::
        (if has_micro tri e then [(["micro"], Leaf (e_micro e))] else []).
 
-(** Edge.set_params(*args, **kwargs) with set_spread_prob / set_micro_mod *)
+(** Edge.set_params( *args, **kwargs) with set_spread_prob / set_micro_mod *)
 Definition edge_set_params (tri : bool) (e : edge) (a : args) (kw : kwargs) : edge * option args :=
   let '(first, a1) := popfirst a in
   let value := val_or first (e_spread e) in
@@ -736,6 +736,48 @@ Definition model_leaves (m : model) : list (path * uni) :=
   | MHpv h => [(["hpv"], h_hpv h); (["nohpv"], h_nohpv h)]
   end.
 
+(** * Constructors (fresh objects as the public constructors build them) *)
+Definition new_uni (g : graph) (ds : list (string * dist)) (maxt : nat) : uni :=
+  {| u_graph := g; u_mods := []; u_dists := ds; u_maxt := maxt |}.
+(** models.Bilateral(graph_dict, is_symmetric={"tumor_spread": symT, "lnl_spread": symL}) *)
+Definition new_bilateral (u : uni) (symT symL : bool) : bilateral :=
+  {| b_ipsi := u; b_contra := u; b_symT := symT; b_symL := symL |}.
+(** models.Midline(graph_dict, is_symmetric={"lnl_spread": symL}, use_mixing, use_central,
+    use_midext_evo, marginalize_unknown): mixing_param = 0.0, midext_prob = 0.0 *)
+Definition new_midline (u : uni) (use_mixing use_central use_midext_evo marginalize_unknown symL : bool) : midline :=
+  {| ml_ext := new_bilateral u false symL; ml_noext := new_bilateral u false symL;
+     ml_central := if use_central then Some (new_bilateral u true symL) else None;
+     ml_unknown := if marginalize_unknown then Some (new_bilateral u false symL) else None;
+     ml_mixing := if use_mixing then Some 0%Qc else None; ml_midext := 0%Qc;
+     ml_evo := use_midext_evo; ml_symL := symL |}.
+Definition new_hpv (u : uni) : hpvmodel := {| h_hpv := u; h_nohpv := u |}.
+
+(** * The setters as one operation alphabet *)
+Inductive setter := SetParams | SetTumorSpread | SetLnlSpread | SetSpread | SetDist.
+Definition call_setter (s : setter) (m : model) (a : args) (kw : kwargs) : model * option args :=
+  match m with
+  | MUni u =>
+      let '(u', o) := match s with
+                      | SetParams => u_set_params u a kw | SetTumorSpread => u_set_tumor_spread_params u a kw
+                      | SetLnlSpread => u_set_lnl_spread_params u a kw | SetSpread => u_set_spread_params u a kw
+                      | SetDist => u_set_distribution_params u a kw end in (MUni u', o)
+  | MBi b =>
+      let '(b', o) := match s with
+                      | SetParams => b_set_params b a kw | SetTumorSpread => b_set_tumor_spread_params b a kw
+                      | SetLnlSpread => b_set_lnl_spread_params b a kw | SetSpread => b_set_spread_params b a kw
+                      | SetDist => b_set_distribution_params b a kw end in (MBi b', o)
+  | MMid ml =>
+      let '(ml', o) := match s with
+                       | SetParams => m_set_params ml a kw | SetTumorSpread => m_set_tumor_spread_params ml a kw
+                       | SetLnlSpread => m_set_lnl_spread_params ml a kw | SetSpread => m_set_spread_params ml a kw
+                       | SetDist => m_set_distribution_params ml a kw end in (MMid ml', o)
+  | MHpv h =>
+      let '(h', o) := match s with
+                      | SetParams => h_set_params h a kw | SetTumorSpread => h_set_tumor_spread_params h a kw
+                      | SetLnlSpread => h_set_lnl_spread_params h a kw | SetSpread => h_set_spread_params h a kw
+                      | SetDist => h_set_distribution_params h a kw end in (MHpv h', o)
+  end.
+
 (** * Helpers to write down values *)
 Definition vals (l : list Qc) : args := map V l.
 Definition kw_of (names : list path) (l : list Qc) : kwargs := combine names (vals l).
@@ -750,3 +792,9 @@ Definition out_model (m : model) :=
   (option_map out_items (param_items m), option_map out_items (nested_items m),
    map (fun pu => (fst pu, out_leaf (snd pu))) (model_leaves m),
    match m with MMid ml => (option_map qout (ml_mixing ml), qout (ml_midext ml)) | _ => (None, qout 0%Qc) end).
+(** a history of setter calls from a given object: what is observable after each call *)
+Fixpoint run_calls (m : model) (cs : list (setter * args * kwargs)) :=
+  match cs with
+  | [] => []
+  | (s, a, kw) :: r => let '(m', o) := call_setter s m a kw in (out_res o, out_model m') :: run_calls m' r
+  end.
